@@ -48,7 +48,14 @@ def run_case(case):
     if (fg.get_b_N(), fg.get_o_N(), fg.get_t_N(), len(fg)) != (n_b, n_o, n_t, n):
         vs.append(viol(pre + "|counts", "get_b_N/get_o_N/get_t_N/len disagree with the generating grids", case,
                        expected=[n_b, n_o, n_t, n], observed=[fg.get_b_N(), fg.get_o_N(), fg.get_t_N(), len(fg)]))
-    for row in range(n):
+    if n > 20000:
+        rows_idx = np.arange(n)
+        tt_, oo_ = np.divmod(rows_idx // n_b, n_o)
+        want_all = np.concatenate([r[tt_][:, None] * dirs[oo_], quats[rows_idx % n_b]], axis=1)
+        badrows = np.nonzero(~np.all(np.isclose(arr, want_all, rtol=0, atol=1e-9), axis=1))[0]
+        if len(badrows):
+            vs.append(viol(pre + "|row", f"row {int(badrows[0])} is not radius*direction + rotation ({len(badrows)} rows)", case))
+    for row in (range(n) if n <= 20000 else []):
         tt, oo = divmod(row // n_b, n_o)
         want = np.concatenate([r[tt] * dirs[oo], quats[row % n_b]])
         if not np.allclose(arr[row], want, rtol=0, atol=1e-9):
@@ -57,11 +64,16 @@ def run_case(case):
             break
     # index helpers
     idx_sets = [None]
-    idx_sets += [[i] for i in range(n)]
+    if n > 20000:
+        probe = sorted({0, 1, n_b, 32767, 32768, 65535, 65536, n - 1, n - n_b, 2 * 32768 - 1} & set(range(n)))
+        idx_sets += [[i] for i in probe] + [probe, list(range(0, n, 977)), list(range(n - 1, -1, -4099))]
+    idx_sets += [[i] for i in (range(n) if n <= 20000 else [])]
     if n <= 40:
         idx_sets += [list(c) for c in itertools.permutations(range(n), 2)]
     else:
         idx_sets += [[i, (i * 7 + 3) % n] for i in range(n)]
+    if n > 20000:
+        idx_sets_tail = []
     idx_sets += [list(range(k)) for k in range(1, n + 1, max(1, n // 12))]
     idx_sets += [list(range(k, n)) for k in range(0, n, max(1, n // 12))]
     idx_sets += [list(range(s0, n, st)) for st in (2, 3, n_b, n_o) for s0 in (0, 1) if st > 0 and s0 < n]
@@ -116,7 +128,12 @@ def cases(tier):
         bs = ["1"] + [f"cube4D_{n}" for n in (2, 3, 4, 7, 8, 9, 16, 40)] + [f"randomQ_{n}" for n in (2, 5, 11)] + ["fulldiv_8"]
         os_ = ["1"] + [f"ico_{n}" for n in (2, 5, 12, 13, 42, 43)] + [f"cube3D_{n}" for n in (3, 8, 9, 26, 27)] + \
               [f"randomS_{n}" for n in (2, 6, 17)]
-    return [{"b": b, "o": o, "t": t, "radii_nm": tv} for b in bs for o in os_ for t, tv in RADIALS]
+    out = [{"b": b, "o": o, "t": t, "radii_nm": tv} for b in bs for o in os_ for t, tv in RADIALS]
+    # one large grid whose position-cell count crosses 2**15 and whose row count crosses 2**16 (index dtype overflow)
+    big = [str(F(1, 10) + F(209, 2090) * i) for i in range(210)]
+    out.append({"b": "cube4D_2", "o": "ico_162", "t": "linspace(0.1, 21, 210)",
+                "radii_nm": [str(F(1, 10) + (F(21) - F(1, 10)) * F(i, 209)) for i in range(210)]})
+    return out
 
 
 def run(ctx):
